@@ -62,14 +62,28 @@ Bind(e) ==
 \* to the router that the lookup via one of the attached networks names, on that network; when no lookup
 \* succeeds the node asks Who-Is-Router-To-Network(d) on every attached network instead and sends nothing else.
 \* (att, pth: the attached networks and the lookup index of the state the probe was sent in)
-TrafficFollowsKnowledge(probe, att, pth) ==
+\* parked[d] = 1: an earlier packet for d was still waiting for an answer to a Who-Is-Router when the probe was sent
+\* ("parked" rig); with no route known the probe then queues behind it without asking again.  With a route known
+\* the probe must go out whatever is parked: traffic sent afterwards follows the current knowledge.
+TrafficFollowsKnowledge(probe, parked, att, pth) ==
     \A d \in DNets :
         LET em   == ToSet(probe[d])
             srcs == {s \in att : <<s, d>> \in DOMAIN pth}
         IN  /\ Cardinality(em) = Len(probe[d])
             /\ IF srcs # {}
                THEN \E s \in srcs : em = {<<"data", s, pth[<<s, d>>]>>}
+               ELSE IF parked[d] = 1 THEN em = {}
                ELSE em = {<<"whois", s, 0>> : s \in att}
+
+\* An announcement that makes a destination reachable releases what was parked for it: packets that waited for a
+\* path to d go to the announcing router, nothing stays parked for a network the announcement listed ("parked" rig;
+\* pk.before / pk.waiting: a packet for d was parked before / is still parked after the operation, pk.released: the
+\* parked packets for d the node put on the wire while it handled the frame)
+ParkedReleased(e) ==
+    \/ e.pk.before = <<>> \/ e.op # "update" \/ e.via \notin {"iam", "iam-unicast"} \/ e.exc # ""
+    \/ \A d \in ToSet(e.ds) :
+          /\ e.pk.waiting[d] = 0
+          /\ e.pk.before[d] = 1 => \E i \in 1..Len(e.pk.released[d]) : e.pk.released[d][i] = <<"data", e.s, e.a>>
 
 \* "leads to that router": the record a lookup returns is the router index's own record
 Ghosts(e) == \E i \in 1..Len(e.st.path) : e.st.path[i][4] = 1
@@ -87,8 +101,9 @@ Failing(e) ==
     (IF e.op \in {"del_router", "del_dnets"} /\ e.exc # "" THEN {"DeleteExact:raised"} ELSE
      IF A_DeleteExact THEN {} ELSE {"DeleteExact"}) \cup
     \* (judged against coherent knowledge only: otherwise the step is blamed for the incoherence)
+    (IF ParkedReleased(e) THEN {} ELSE {"TrafficFollowsKnowledge:ParkedReleased"}) \cup
     (IF e.probe = <<>> \/ ~(TypeOK' /\ Coherent') \/ Ghosts(e) THEN {}
-     ELSE IF TrafficFollowsKnowledge(e.probe, attached', path') THEN {} ELSE {"TrafficFollowsKnowledge"})
+     ELSE IF TrafficFollowsKnowledge(e.probe, e.parked, attached', path') THEN {} ELSE {"TrafficFollowsKnowledge"})
 
 Step ==
     /\ l <= Len(T)
